@@ -1,12 +1,1078 @@
-//! C09 — not built yet (stub; see DESIGN.md §5).
-use crate::ctx::Tier;
-use serde_json::Value;
+//! C09 — a pulled value stream reproduces the producer's bytes exactly and ends once.
+//!
+//! Two layers, both on the real code:
+//!  (1) narrow seam: `Router::get("/_svs/open|next|cancel").handle(..)` on the real
+//!      handlers (real producer thread, real bounded channel), enumerated over chunk
+//!      size x payload length (every residue) x channel depth x compression x
+//!      producer kind x write-size pattern x failure position x consumer script
+//!      (drain / cancel after k / unknown id) x gate discipline (who arrives first
+//!      at each rendezvous);
+//!  (2) transports: the public pullers over Client<->Server (TCP),
+//!      AsyncClient<->Server and WebSocketClient<->WebSocketServer on a boundary subset.
+//!
+//! Oracle (see `seam::run_session`): concatenation of pulled chunks == the bytes
+//! the producer emitted (zstd: decompresses to exactly the logical bytes); exactly
+//! one end marker, on the final chunk; empty payload -> one empty final chunk;
+//! next past the end / after cancel / after a failure -> error; a producer failure
+//! at any byte position -> an error response, never an end marker. A session that
+//! never answers is reported by a watchdog (and re-run once before it counts).
 
-pub fn run(_tier: Tier) -> ! {
-    eprintln!("MACHINERY-ERROR property=C09 check not built yet");
-    std::process::exit(2)
+#[path = "c09_net.rs"]
+mod net;
+#[path = "c09_seam.rs"]
+mod seam;
+
+use crate::ctx::{Ctx, Samples, Tier};
+use serde_json::{Value, json};
+use std::collections::BTreeMap;
+use std::sync::atomic::{AtomicU64, Ordering};
+use std::sync::mpsc::{RecvTimeoutError, channel};
+use std::sync::{Arc, Mutex};
+use std::time::{Duration, Instant};
+
+#[derive(Clone, Copy, Debug, PartialEq, Eq, PartialOrd, Ord)]
+pub enum Kind {
+    Value,
+    Typed,
+    Complex,
+    Reader,
+    Writer,
+}
+const KINDS: [Kind; 5] = [Kind::Value, Kind::Typed, Kind::Complex, Kind::Reader, Kind::Writer];
+const KIND_NAMES: [&str; 5] = ["value", "typed_array", "complex_array", "reader", "writer"];
+
+#[derive(Clone, Copy, Debug, PartialEq, Eq)]
+pub enum Pat {
+    /// whatever the encoder does (value / typed / complex producers)
+    Natural,
+    Single,
+    AllOne,
+    AllC,
+    Alt,
+    /// composition of n: bit i set = a cut after byte i+1
+    Comp(u32),
 }
 
-pub fn replay(_case: &Value) -> Result<(), String> {
-    Err("no replay for C09 yet".into())
+#[derive(Clone, Copy, Debug, PartialEq, Eq)]
+pub enum Script {
+    Drain,
+    CancelAfter(u32),
+    UnknownId,
+}
+
+#[derive(Clone, Copy, Debug, PartialEq, Eq)]
+pub enum Gate {
+    /// producer and puller run freely
+    Free,
+    /// the first `next` is issued (and observed parked) before the producer may start
+    Hold,
+    /// the producer runs as far ahead as the channel admits before every `next`
+    Ahead,
+    /// one bit per gate point (each write, then the return): set = consumer first
+    Sched { bits: u32, len: u8 },
+}
+
+#[derive(Clone, Copy, Debug)]
+pub struct Case {
+    pub c: u32,
+    /// payload parameter: byte length (reader/writer) or element count
+    pub m: u32,
+    pub depth: u8,
+    pub zstd: bool,
+    pub kind: Kind,
+    pub pat: Pat,
+    pub fail_at: Option<u32>,
+    /// the injected failure is a panic of the producer thread
+    pub panic: bool,
+    pub script: Script,
+    pub gate: Gate,
+}
+
+fn kind_idx(k: Kind) -> usize {
+    KINDS.iter().position(|x| *x == k).unwrap()
+}
+
+fn pat_json(p: Pat) -> Value {
+    match p {
+        Pat::Natural => json!("natural"),
+        Pat::Single => json!("single"),
+        Pat::AllOne => json!("all-1"),
+        Pat::AllC => json!("all-c"),
+        Pat::Alt => json!("alt"),
+        Pat::Comp(b) => json!({ "composition": b }),
+    }
+}
+
+fn pat_from(v: &Value) -> Option<Pat> {
+    if let Some(s) = v.as_str() {
+        return Some(match s {
+            "natural" => Pat::Natural,
+            "single" => Pat::Single,
+            "all-1" => Pat::AllOne,
+            "all-c" => Pat::AllC,
+            "alt" => Pat::Alt,
+            _ => return None,
+        });
+    }
+    Some(Pat::Comp(v.get("composition")?.as_u64()? as u32))
+}
+
+fn case_json(c: &Case) -> Value {
+    json!({
+        "layer": "seam",
+        "chunk_bytes": c.c, "m": c.m, "depth": c.depth, "zstd": c.zstd,
+        "kind": KIND_NAMES[kind_idx(c.kind)],
+        "pattern": pat_json(c.pat),
+        "write_sizes": if c.m <= 64 && c.pat != Pat::Natural { json!(seam::pieces(c.pat, c.m as usize, c.c as usize)) } else { Value::Null },
+        "fail_at": c.fail_at,
+        "fail_mode": if c.panic { "panic" } else { "err" },
+        "zstd_level": seam::ZSTD_LEVEL.load(Ordering::Relaxed),
+        "script": match c.script { Script::Drain => json!("drain"), Script::CancelAfter(k) => json!({"cancel_after": k}), Script::UnknownId => json!("unknown-id") },
+        "gate": match c.gate { Gate::Free => json!("free"), Gate::Hold => json!("hold"), Gate::Ahead => json!("ahead"), Gate::Sched{bits,len} => json!({"sched_bits": bits, "len": len}) },
+    })
+}
+
+fn case_from(v: &Value) -> Option<Case> {
+    let kind = KINDS[KIND_NAMES.iter().position(|n| Some(*n) == v.get("kind").and_then(|k| k.as_str()))?];
+    let script = match v.get("script")? {
+        Value::String(s) if s == "drain" => Script::Drain,
+        Value::String(s) if s == "unknown-id" => Script::UnknownId,
+        o => Script::CancelAfter(o.get("cancel_after")?.as_u64()? as u32),
+    };
+    let gate = match v.get("gate")? {
+        Value::String(s) if s == "free" => Gate::Free,
+        Value::String(s) if s == "hold" => Gate::Hold,
+        Value::String(s) if s == "ahead" => Gate::Ahead,
+        o => Gate::Sched { bits: o.get("sched_bits")?.as_u64()? as u32, len: o.get("len")?.as_u64()? as u8 },
+    };
+    Some(Case {
+        c: v.get("chunk_bytes")?.as_u64()? as u32,
+        m: v.get("m")?.as_u64()? as u32,
+        depth: v.get("depth")?.as_u64()? as u8,
+        zstd: v.get("zstd")?.as_bool()?,
+        kind,
+        pat: pat_from(v.get("pattern")?)?,
+        fail_at: v.get("fail_at").and_then(|f| f.as_u64()).map(|f| f as u32),
+        panic: v.get("fail_mode").and_then(|f| f.as_str()) == Some("panic"),
+        script,
+        gate,
+    })
+}
+
+fn net_case_json(job: &net::NetJob, sub: &net::NetSub) -> Value {
+    json!({
+        "layer": "net",
+        "chunk_bytes": job.c, "depth": job.depth, "zstd": job.zstd, "kind": KIND_NAMES[kind_idx(job.kind)],
+        "m": sub.m, "pattern": pat_json(sub.pat), "fail_at": sub.fail_at, "zstd_level": seam::ZSTD_LEVEL.load(Ordering::Relaxed),
+        "puller": sub.puller.name(), "transport": sub.transport.name(),
+    })
+}
+
+fn net_case_from(v: &Value) -> Option<(net::NetJob, net::NetSub)> {
+    let kind = KINDS[KIND_NAMES.iter().position(|n| Some(*n) == v.get("kind").and_then(|k| k.as_str()))?];
+    Some((
+        net::NetJob { kind, c: v.get("chunk_bytes")?.as_u64()? as u32, depth: v.get("depth")?.as_u64()? as u8, zstd: v.get("zstd")?.as_bool()? },
+        net::NetSub {
+            m: v.get("m")?.as_u64()? as u32,
+            pat: pat_from(v.get("pattern")?)?,
+            fail_at: v.get("fail_at").and_then(|f| f.as_u64()).map(|f| f as u32),
+            puller: net::Puller::parse(v.get("puller")?.as_str()?)?,
+            transport: net::Transport::parse(v.get("transport")?.as_str()?)?,
+        },
+    ))
+}
+
+// ---------------------------------------------------------------------------
+// plan
+// ---------------------------------------------------------------------------
+
+#[derive(Clone, Copy)]
+struct Item {
+    case: Case,
+    /// run CancelAfter(k) for every k = 0 ..= number of chunk responses
+    sweep_cancel: bool,
+}
+
+const DEPTHS: [u8; 5] = [0, 1, 2, 4, 8];
+
+fn chunk_sizes(tier: Tier) -> Vec<u32> {
+    let mut v = vec![1, 2, 3, 4, 7, 8];
+    if tier == Tier::Thorough {
+        v.extend([16, 4096, 1 << 20]);
+    }
+    v
+}
+
+/// payload lengths for chunk size c: every n in 0..=3c+1 for small c, the
+/// boundary residues k*c-1, k*c, k*c+1 for large c
+fn lengths(c: u32) -> Vec<u32> {
+    if c <= 16 {
+        (0..=3 * c + 1).collect()
+    } else {
+        let mut v = vec![0, 1, c - 1, c, c + 1, 2 * c - 1, 2 * c, 2 * c + 1, 3 * c - 1, 3 * c, 3 * c + 1];
+        v.sort();
+        v.dedup();
+        v
+    }
+}
+
+/// element counts for the value / typed / complex producers: the same range as
+/// lengths, a window across the 63/64 size-prefix boundary (so every residue of
+/// the encoded length, including exact multiples of c, occurs), and counts whose
+/// encoding hits k*c exactly
+fn element_counts(kind: Kind, c: u32) -> Vec<u32> {
+    let mut v = lengths(c);
+    if c <= 16 {
+        v.extend(60..=62 + 2 * c);
+    }
+    for k in 1..=3u32 {
+        for d in [-1i64, 0, 1] {
+            let t = (k * c) as i64 + d;
+            if t > 0 {
+                if let Some(m) = net::m_for_len(kind, t as usize) {
+                    v.push(m as u32);
+                }
+            }
+        }
+    }
+    v.sort();
+    v.dedup();
+    v
+}
+
+fn patterns(n: u32, all_compositions: bool) -> Vec<Pat> {
+    if n == 0 {
+        vec![Pat::Single]
+    } else if n <= 10 && all_compositions {
+        (0..(1u32 << (n - 1))).map(Pat::Comp).collect()
+    } else {
+        vec![Pat::AllOne, Pat::AllC, Pat::Alt, Pat::Single]
+    }
+}
+
+fn build_plan(tier: Tier) -> Vec<Item> {
+    let mut plan = Vec::new();
+    let base = |c: u32, m: u32, depth: u8, zstd: bool, kind: Kind, pat: Pat| Case {
+        c, m, depth, zstd, kind, pat, fail_at: None, panic: false, script: Script::Drain, gate: Gate::Free,
+    };
+    // Under zstd the chunker's input is the encoder's output, whose write sizes the
+    // producer's write pattern does not control; the quick tier therefore thins the
+    // zstd half of the pattern / failure / cancel products (stated in `bound`).
+    let full = tier == Tier::Thorough;
+    for &c in &chunk_sizes(tier) {
+        for &depth in &DEPTHS {
+            for zstd in [false, true] {
+                let thin = zstd && !full;
+                // A: value / typed / complex producers
+                for kind in [Kind::Value, Kind::Typed, Kind::Complex] {
+                    for m in element_counts(kind, c) {
+                        let b = base(c, m, depth, zstd, kind, Pat::Natural);
+                        plan.push(Item { case: b, sweep_cancel: false });
+                        if m <= 3 * c + 1 {
+                            if !thin || depth == 0 || depth == 4 {
+                                plan.push(Item { case: b, sweep_cancel: true });
+                            }
+                            plan.push(Item { case: Case { script: Script::UnknownId, ..b }, sweep_cancel: false });
+                        }
+                    }
+                }
+                for kind in [Kind::Reader, Kind::Writer] {
+                    for n in lengths(c) {
+                        // B: every write-size pattern
+                        for pat in patterns(n, !thin || depth == 4) {
+                            plan.push(Item { case: base(c, n, depth, zstd, kind, pat), sweep_cancel: false });
+                        }
+                        // C: producer failure after every byte position
+                        let fpats = if thin {
+                            if depth != 0 && depth != 4 {
+                                vec![]
+                            } else if n == 0 {
+                                vec![Pat::Single]
+                            } else {
+                                vec![Pat::AllC, Pat::Single]
+                            }
+                        } else {
+                            patterns(n, full)
+                        };
+                        let positions: Vec<u32> = if c <= 16 {
+                            (0..=n).collect()
+                        } else {
+                            let mut p: Vec<u32> = lengths(c).into_iter().filter(|p| *p <= n).collect();
+                            p.push(n);
+                            p.sort();
+                            p.dedup();
+                            p
+                        };
+                        for &pat in &fpats {
+                            for &p in &positions {
+                                plan.push(Item {
+                                    case: Case { fail_at: Some(p), ..base(c, n, depth, zstd, kind, pat) },
+                                    sweep_cancel: false,
+                                });
+                            }
+                        }
+                        // C': the producer thread panics (bare channel close)
+                        if depth == 0 || (depth == 2 && !thin) {
+                            for pat in if n == 0 { vec![Pat::Single] } else { vec![Pat::Single, Pat::AllC] } {
+                                for &p in &positions {
+                                    plan.push(Item {
+                                        case: Case { fail_at: Some(p), panic: true, ..base(c, n, depth, zstd, kind, pat) },
+                                        sweep_cancel: false,
+                                    });
+                                }
+                            }
+                        }
+                        // D/E: cancel after every k-th next, unknown stream id
+                        let b = base(c, n, depth, zstd, kind, Pat::Single);
+                        if !thin || depth == 0 || depth == 4 {
+                            plan.push(Item { case: b, sweep_cancel: true });
+                        }
+                        plan.push(Item { case: Case { script: Script::UnknownId, ..b }, sweep_cancel: false });
+                        // F: gates
+                        let g = base(c, n, depth, zstd, kind, Pat::AllC);
+                        plan.push(Item { case: Case { gate: Gate::Hold, ..g }, sweep_cancel: false });
+                        if !zstd && c <= 16 {
+                            plan.push(Item { case: Case { gate: Gate::Ahead, ..g }, sweep_cancel: false });
+                            let sched_max_c = if tier == Tier::Thorough { 16 } else { 4 };
+                            if c <= sched_max_c {
+                                let gates = n.div_ceil(c) + 1;
+                                for bits in 0..(1u32 << gates) {
+                                    plan.push(Item {
+                                        case: Case { gate: Gate::Sched { bits, len: gates as u8 }, ..g },
+                                        sweep_cancel: false,
+                                    });
+                                }
+                            }
+                        }
+                    }
+                }
+            }
+        }
+    }
+    plan
+}
+
+fn build_net_jobs(tier: Tier) -> Vec<net::NetJob> {
+    let cs: Vec<u32> = tier.pick(vec![1, 3, 8], vec![1, 2, 3, 4, 7, 8, 16, 4096, 1 << 20]);
+    let depths: Vec<u8> = tier.pick(vec![0, 1, 4], DEPTHS.to_vec());
+    let mut jobs = Vec::new();
+    for &c in &cs {
+        for &depth in &depths {
+            for zstd in [false, true] {
+                for kind in KINDS {
+                    jobs.push(net::NetJob { kind, c, depth, zstd });
+                }
+            }
+        }
+    }
+    jobs
+}
+
+// ---------------------------------------------------------------------------
+// worker pool with a hang watchdog (detached threads: a session stuck inside
+// the code under test can never be joined)
+// ---------------------------------------------------------------------------
+
+const WATCHDOG: Duration = Duration::from_secs(10);
+const IDLE: u64 = u64::MAX;
+
+struct Slot {
+    idx: AtomicU64,
+    sub: AtomicU64,
+    since: Mutex<Instant>,
+}
+
+impl Slot {
+    fn new() -> Self {
+        Slot { idx: AtomicU64::new(IDLE), sub: AtomicU64::new(0), since: Mutex::new(Instant::now()) }
+    }
+    fn begin(&self, idx: u64, sub: u64) {
+        *self.since.lock().unwrap() = Instant::now();
+        self.sub.store(sub, Ordering::SeqCst);
+        self.idx.store(idx, Ordering::SeqCst);
+    }
+    fn idle(&self) {
+        self.idx.store(IDLE, Ordering::SeqCst);
+    }
+}
+
+enum PoolEnd<S> {
+    /// all workers finished; the count is the number of watchdog expiries that
+    /// did not reproduce on re-execution (slow, not stuck: host overload)
+    Done(Vec<S>, u64),
+    /// a case exceeded the watchdog and exceeded it again when re-executed
+    Hang { idx: u64, sub: u64, finished: Vec<S> },
+    /// a worker stayed on one case for 6 watchdog periods although the case
+    /// finishes when re-executed
+    Stuck { idx: u64, sub: u64 },
+}
+
+/// Sessions are latency-bound (every chunk is a cross-thread hand-off between
+/// the puller and the producer thread), not CPU-bound, so the pool runs
+/// `oversub` workers per core.
+fn run_pool<S: Send + 'static>(
+    n: u64,
+    block: u64,
+    oversub: usize,
+    init: impl Fn() -> S + Send + Sync + 'static,
+    job: impl Fn(&mut S, u64, &Slot) + Send + Sync + 'static,
+    // re-execute (idx, sub) under the watchdog; true = it hangs again
+    confirm: impl Fn(u64, u64) -> bool,
+) -> PoolEnd<S> {
+    let nw = (crate::par::workers() * oversub).min(((n / block.max(1)) + 1) as usize).max(1);
+    let cursor = Arc::new(AtomicU64::new(0));
+    let slots: Arc<Vec<Slot>> = Arc::new((0..nw).map(|_| Slot::new()).collect());
+    let job = Arc::new(job);
+    let init = Arc::new(init);
+    let (tx, rx) = channel::<S>();
+    for w in 0..nw {
+        let (cursor, slots, job, init, tx) = (cursor.clone(), slots.clone(), job.clone(), init.clone(), tx.clone());
+        std::thread::spawn(move || {
+            let mut st = init();
+            loop {
+                let start = cursor.fetch_add(block, Ordering::Relaxed);
+                if start >= n {
+                    break;
+                }
+                for i in start..(start + block).min(n) {
+                    job(&mut st, i, &slots[w]);
+                }
+            }
+            slots[w].idle();
+            let _ = tx.send(st);
+        });
+    }
+    drop(tx);
+    let mut done = Vec::new();
+    let mut suspects: Vec<(usize, u64, u64)> = Vec::new();
+    loop {
+        match rx.recv_timeout(Duration::from_millis(200)) {
+            Ok(s) => {
+                done.push(s);
+                if done.len() == nw {
+                    return PoolEnd::Done(done, suspects.len() as u64);
+                }
+            }
+            Err(RecvTimeoutError::Disconnected) => return PoolEnd::Done(done, suspects.len() as u64),
+            Err(RecvTimeoutError::Timeout) => {}
+        }
+        for (w, s) in slots.iter().enumerate() {
+            let idx = s.idx.load(Ordering::SeqCst);
+            if idx == IDLE || s.since.lock().unwrap().elapsed() <= WATCHDOG {
+                continue;
+            }
+            let sub = s.sub.load(Ordering::SeqCst);
+            // re-read: the slot may have moved on between the loads
+            if s.idx.load(Ordering::SeqCst) != idx || s.since.lock().unwrap().elapsed() <= WATCHDOG {
+                continue;
+            }
+            if suspects.contains(&(w, idx, sub)) {
+                if s.since.lock().unwrap().elapsed() > WATCHDOG * 6 {
+                    return PoolEnd::Stuck { idx, sub };
+                }
+            } else if confirm(idx, sub) {
+                return PoolEnd::Hang { idx, sub, finished: done };
+            } else {
+                suspects.push((w, idx, sub));
+            }
+        }
+    }
+}
+
+/// Run `f` on a detached thread; None if it does not finish within the watchdog.
+fn with_watchdog<T: Send + 'static>(f: impl FnOnce() -> T + Send + 'static) -> Option<T> {
+    let (tx, rx) = channel();
+    std::thread::spawn(move || {
+        let _ = tx.send(f());
+    });
+    rx.recv_timeout(WATCHDOG).ok()
+}
+
+// ---------------------------------------------------------------------------
+// aggregation
+// ---------------------------------------------------------------------------
+
+#[derive(Default)]
+struct Agg {
+    c: BTreeMap<&'static str, u64>,
+    per_kind: [u64; 5],
+    multi_chunk_per_kind: [u64; 5],
+    exact_multiple_per_kind: [u64; 5],
+    outcomes: BTreeMap<String, u64>,
+    thread_s: BTreeMap<&'static str, f64>,
+    viols: Vec<(u64, String, String, Value)>,
+    viol_total: u64,
+    machinery: Option<String>,
+    notes: Vec<String>,
+    samples: Vec<(u64, Value)>,
+    rechecks_left: u32,
+}
+
+impl Agg {
+    fn new() -> Self {
+        Agg { rechecks_left: 3, ..Default::default() }
+    }
+    fn add(&mut self, k: &'static str, n: u64) {
+        *self.c.entry(k).or_insert(0) += n;
+    }
+    fn merge(&mut self, o: Agg) {
+        for (k, v) in o.c {
+            *self.c.entry(k).or_insert(0) += v;
+        }
+        for i in 0..5 {
+            self.per_kind[i] += o.per_kind[i];
+            self.multi_chunk_per_kind[i] += o.multi_chunk_per_kind[i];
+            self.exact_multiple_per_kind[i] += o.exact_multiple_per_kind[i];
+        }
+        for (k, v) in o.outcomes {
+            *self.outcomes.entry(k).or_insert(0) += v;
+        }
+        for (k, v) in o.thread_s {
+            *self.thread_s.entry(k).or_insert(0.0) += v;
+        }
+        self.viols.extend(o.viols);
+        self.viol_total += o.viol_total;
+        if self.machinery.is_none() {
+            self.machinery = o.machinery;
+        }
+        self.notes.extend(o.notes);
+        self.samples.extend(o.samples);
+    }
+    fn get(&self, k: &str) -> u64 {
+        self.c.get(k).copied().unwrap_or(0)
+    }
+}
+
+fn trace_json(t: &[(usize, u8)]) -> Value {
+    json!(
+        t.iter()
+            .map(|(len, f)| match f {
+                0 => format!("chunk[{len}]"),
+                1 => format!("chunk[{len}]+END"),
+                2 => "error".to_string(),
+                _ => "other".to_string(),
+            })
+            .collect::<Vec<_>>()
+    )
+}
+
+/// run one seam case, fold its outcome into the aggregate
+fn exec_seam(agg: &mut Agg, idx: u64, case: &Case) -> seam::Out {
+    let t0 = Instant::now();
+    let out = seam::run_session(case);
+    let cat = match (case.gate, case.script, case.fail_at.is_some()) {
+        (Gate::Hold, ..) => "gate-hold",
+        (Gate::Ahead, ..) => "gate-ahead",
+        (Gate::Sched { .. }, ..) => "gate-sched",
+        (_, Script::CancelAfter(_), _) => "cancel-sweep",
+        (_, Script::UnknownId, _) => "unknown-id",
+        (_, _, true) => "failure-injection",
+        _ if case.pat == Pat::Natural => "drain-value-kinds",
+        _ => "drain-write-patterns",
+    };
+    *agg.thread_s.entry(cat).or_insert(0.0) += t0.elapsed().as_secs_f64();
+    if let Some(m) = &out.machinery {
+        if agg.machinery.is_none() {
+            agg.machinery = Some(format!("{m} in {}", case_json(case)));
+        }
+        return out;
+    }
+    let ki = kind_idx(case.kind);
+    let st = &out.st;
+    agg.add("sessions", 1);
+    agg.add("exchanges", st.exchanges);
+    agg.per_kind[ki] += 1;
+    if st.chunks >= 2 {
+        agg.add("multi_chunk_sessions", 1);
+        agg.multi_chunk_per_kind[ki] += 1;
+    }
+    if st.ended_last && st.wire_len > 0 && st.wire_len % case.c as usize == 0 {
+        agg.exact_multiple_per_kind[ki] += 1;
+        agg.add("wire_exact_multiple_of_chunk_sessions", 1);
+    }
+    if st.ended_last && st.wire_len % case.c as usize == 1 && st.wire_len > 1 {
+        agg.add("wire_multiple_plus_one_sessions", 1);
+    }
+    if st.ended_last && (st.wire_len + 1) % case.c as usize == 0 && case.c > 1 {
+        agg.add("wire_multiple_minus_one_sessions", 1);
+    }
+    if case.zstd {
+        agg.add("zstd_sessions", 1);
+    }
+    if !case.zstd && st.emitted_len == 0 && case.fail_at.is_none() && st.ended_last {
+        agg.add("empty_payload_sessions", 1);
+    }
+    if case.fail_at.is_some() {
+        agg.add("failure_injection_sessions", 1);
+        if case.panic {
+            agg.add("producer_panic_sessions", 1);
+        }
+        if st.ended_error {
+            agg.add("failure_surfaced_as_error", 1);
+        }
+        if st.chunks > 0 {
+            agg.add("failure_sessions_with_chunks_before_the_error", 1);
+        }
+    }
+    match case.script {
+        Script::CancelAfter(_) => {
+            agg.add("cancel_sessions", 1);
+            if !st.ended_last && !st.ended_error {
+                agg.add("cancel_mid_stream_sessions", 1);
+            }
+        }
+        Script::UnknownId => agg.add("unknown_id_sessions", 1),
+        Script::Drain => {}
+    }
+    match case.gate {
+        Gate::Free => {}
+        Gate::Hold => agg.add("gate_hold_sessions", 1),
+        Gate::Ahead => agg.add("gate_ahead_sessions", 1),
+        Gate::Sched { .. } => agg.add("gate_sched_sessions", 1),
+    }
+    agg.add("past_end_probes", st.past_end_probes as u64);
+    if st.producer_parked > 0 {
+        agg.add("sessions_producer_observed_parked_on_full_channel", 1);
+        agg.add("producer_parked_observations", st.producer_parked as u64);
+    }
+    if st.consumer_parked_obs > 0 {
+        agg.add("sessions_consumer_observed_parked_before_producer", 1);
+    }
+    agg.add("consumer_parked_observations", st.consumer_parked_obs as u64);
+    agg.add("consumer_first_not_observed", st.consumer_parked_unobs as u64);
+    if st.size_dev {
+        agg.add("sessions_with_nonfinal_chunk_size_not_c", 1);
+    }
+    if st.prediction_failed {
+        agg.add("gate_prediction_missed", 1);
+    }
+    if st.depth_exceeded {
+        agg.add("channel_depth_exceeded", 1);
+    }
+    let oc = if st.ended_last { "end-marker" } else if st.ended_error { "error" } else { "released-by-cancel" };
+    *agg.outcomes.entry(format!("{}:{oc}", if case.fail_at.is_some() { "failing-producer" } else { "healthy-producer" })).or_insert(0) += 1;
+    if !out.viols.is_empty() {
+        agg.viol_total += out.viols.len() as u64;
+        let mut reproduced = Value::Null;
+        if agg.rechecks_left > 0 {
+            agg.rechecks_left -= 1;
+            let again = seam::run_session(case);
+            let a: Vec<&String> = out.viols.iter().map(|v| &v.0).collect();
+            let b: Vec<&String> = again.viols.iter().map(|v| &v.0).collect();
+            reproduced = json!(a == b);
+            if a != b {
+                agg.notes.push(format!(
+                    "violation {:?} on {} re-executed as {:?}: the manifestation depends on thread timing (the oracle itself does not)",
+                    a, case_json(case), b
+                ));
+            }
+        }
+        for (k, w) in &out.viols {
+            if !agg.viols.iter().any(|v| v.1 == *k) {
+                let mut cj = case_json(case);
+                cj["observed_exchanges"] = trace_json(&out.trace);
+                cj["reproduced_on_reexecution"] = reproduced.clone();
+                agg.viols.push((idx, k.clone(), format!("{w} [{}]", short_case(case)), cj));
+            }
+        }
+    }
+    out
+}
+
+fn short_case(c: &Case) -> String {
+    format!(
+        "kind={} c={} m={} depth={} zstd={} pat={:?} fail_at={:?}{} script={:?} gate={:?}",
+        KIND_NAMES[kind_idx(c.kind)], c.c, c.m, c.depth, c.zstd, c.pat, c.fail_at, if c.panic { "(panic)" } else { "" }, c.script, c.gate
+    )
+}
+
+fn exec_item(agg: &mut Agg, idx: u64, item: &Item, slot: &Slot) {
+    if !item.sweep_cancel {
+        slot.begin(idx, 0);
+        exec_seam(agg, idx, &item.case);
+        return;
+    }
+    let mut k = 0u32;
+    loop {
+        slot.begin(idx, k as u64);
+        let case = Case { script: Script::CancelAfter(k), ..item.case };
+        let out = exec_seam(agg, idx, &case);
+        // stop once the cancel came after the stream had ended by itself
+        if out.machinery.is_some() || out.st.ended_last || out.st.ended_error || k > 4096 {
+            break;
+        }
+        k += 1;
+    }
+}
+
+fn oversub() -> usize {
+    std::env::var("C09_OVERSUB").ok().and_then(|s| s.parse().ok()).unwrap_or(2)
+}
+
+fn raise_fd_limit() {
+    unsafe {
+        let mut r = libc::rlimit { rlim_cur: 0, rlim_max: 0 };
+        if libc::getrlimit(libc::RLIMIT_NOFILE, &mut r) == 0 && r.rlim_cur < r.rlim_max {
+            r.rlim_cur = r.rlim_max.min(65536);
+            libc::setrlimit(libc::RLIMIT_NOFILE, &r);
+        }
+    }
+}
+
+fn hang_what(layer: &str, desc: &str) -> String {
+    format!("{layer}: no answer within {} s (a `next` or a puller never returned), reproduced on re-execution: {desc}", WATCHDOG.as_secs())
+}
+
+pub fn run(tier: Tier) -> ! {
+    let ctx = Ctx::new("C09", tier);
+    std::panic::set_hook(Box::new(|_| {}));
+    raise_fd_limit();
+    let zstd_level: i32 = std::env::var("C09_ZSTD_LEVEL").ok().and_then(|s| s.parse().ok()).unwrap_or(tier.pick(1, 3));
+    seam::ZSTD_LEVEL.store(zstd_level, Ordering::Relaxed);
+    let samples = Samples::new(6);
+
+    // cross-checks of the oracle's own inputs
+    for m in [0usize, 1, 5, 63, 64, 70] {
+        let v = seam::val_for(m);
+        let l = seam::logical(Kind::Value, m);
+        match beve::from_slice::<seam::Val>(&l) {
+            Ok(back) if back == v => {}
+            other => ctx.machinery(format!("reference bytes for value m={m} do not decode back: {other:?}")),
+        }
+        if beve::to_vec(&v).map(|b| b != l).unwrap_or(true) {
+            ctx.note(format!("beve::to_vec and beve::to_writer_streaming differ for value m={m}; the streaming encoding is the reference"));
+        }
+    }
+
+    // ---------------- layer 1: narrow seam
+    let plan = Arc::new(build_plan(tier));
+    let n_items = plan.len() as u64;
+    let t0 = Instant::now();
+    let plan2 = plan.clone();
+    let plan3 = plan.clone();
+    let case_of = move |idx: u64, sub: u64| -> Case {
+        let item = plan3[idx as usize];
+        if item.sweep_cancel { Case { script: Script::CancelAfter(sub as u32), ..item.case } } else { item.case }
+    };
+    let case_of2 = case_of.clone();
+    let end = run_pool(
+        n_items,
+        16,
+        oversub(),
+        Agg::new,
+        move |agg: &mut Agg, i, slot| {
+            exec_item(agg, i, &plan2[i as usize], slot);
+            slot.idle();
+        },
+        move |idx, sub| {
+            let case = case_of2(idx, sub);
+            eprintln!("[C09] watchdog: session {} did not finish within {} s, re-executing once", short_case(&case), WATCHDOG.as_secs());
+            with_watchdog(move || seam::run_session(&case).viols.len()).is_none()
+        },
+    );
+    let mut agg = Agg::new();
+    let mut hang: Option<(String, String, Value)> = None;
+    let mut false_expiries = 0u64;
+    match end {
+        PoolEnd::Done(parts, fe) => {
+            false_expiries += fe;
+            parts.into_iter().for_each(|p| agg.merge(p))
+        }
+        PoolEnd::Stuck { idx, sub } => ctx.machinery(format!(
+            "a worker stayed on {} for {} s although the session finishes when re-executed",
+            short_case(&case_of(idx, sub)),
+            6 * WATCHDOG.as_secs()
+        )),
+        PoolEnd::Hang { idx, sub, finished } => {
+            finished.into_iter().for_each(|p| agg.merge(p));
+            let case = case_of(idx, sub);
+            let mut cj = case_json(&case);
+            cj["hang"] = json!(true);
+            hang = Some((format!("C09:seam:hang:{}", if case.zstd { "zstd" } else { "none" }), hang_what("seam", &short_case(&case)), cj));
+        }
+    }
+    let seam_wall = t0.elapsed().as_secs_f64();
+    if let Some(m) = &agg.machinery {
+        ctx.machinery(m);
+    }
+
+    // ---------------- layer 2: transports (skipped once the seam already hangs)
+    let jobs = Arc::new(build_net_jobs(tier));
+    let mut net_agg = Agg::new();
+    let t1 = Instant::now();
+    if hang.is_none() {
+        let rt = Arc::new(
+            tokio::runtime::Builder::new_multi_thread().worker_threads(4).enable_all().build().unwrap_or_else(|e| ctx.machinery(format!("tokio runtime: {e}"))),
+        );
+        let jobs2 = jobs.clone();
+        let rt2 = rt.clone();
+        let jobs3 = jobs.clone();
+        let rt3 = rt.clone();
+        let net_confirm = move |idx: u64, sub: u64| -> bool {
+            let job = jobs3[idx as usize];
+            let Some(s) = net::subcases(&job).get(sub as usize).copied() else {
+                // the setup phase itself: re-run the setup alone
+                let rt4 = rt3.clone();
+                return with_watchdog(move || net::setup(&job, &rt4).is_ok()).is_none();
+            };
+            eprintln!("[C09] watchdog: transport pull {} did not finish within {} s, re-executing once", net_case_json(&job, &s), WATCHDOG.as_secs());
+            let rt4 = rt3.clone();
+            with_watchdog(move || net::setup(&job, &rt4).map(|ep| net::run_sub(&job, &s, &ep, &rt4).viols.len())).is_none()
+        };
+        let end = run_pool(jobs.len() as u64, 1, oversub(), Agg::new, move |agg: &mut Agg, i, slot| {
+            let job = jobs2[i as usize];
+            slot.begin(i, u64::MAX - 1);
+            let ep = match net::setup(&job, &rt2) {
+                Ok(ep) => ep,
+                Err(e) => {
+                    agg.machinery = Some(format!("transport setup failed: {e}"));
+                    slot.idle();
+                    return;
+                }
+            };
+            agg.add("net_servers", 1);
+            for (si, sub) in net::subcases(&job).iter().enumerate() {
+                slot.begin(i, si as u64);
+                let out = net::run_sub(&job, sub, &ep, &rt2);
+                agg.add("net_pulls", 1);
+                agg.add("net_exchanges", out.exchanges);
+                agg.add("net_ok_pulls", out.ok_pulls);
+                agg.add("net_failed_producer_pulls_that_errored", out.err_pulls);
+                agg.add(
+                    match sub.transport {
+                        net::Transport::Tcp => "net_pulls_tcp_client",
+                        net::Transport::AsyncTcp => "net_pulls_async_client",
+                        net::Transport::Ws => "net_pulls_websocket_client",
+                    },
+                    1,
+                );
+                agg.per_kind[kind_idx(job.kind)] += 1;
+                if agg.samples.is_empty() && sub.m as usize > 2 * job.c as usize {
+                    agg.samples.push((i, json!({"case": net_case_json(&job, sub), "result": if out.viols.is_empty() { "as predicted" } else { "violation" }})));
+                }
+                agg.viol_total += out.viols.len() as u64;
+                for (k, w) in out.viols {
+                    if !agg.viols.iter().any(|v| v.1 == k) {
+                        agg.viols.push((i * 100_000 + si as u64, k, w, net_case_json(&job, sub)));
+                    }
+                }
+            }
+            slot.idle();
+        }, net_confirm);
+        match end {
+            PoolEnd::Done(parts, fe) => {
+                false_expiries += fe;
+                parts.into_iter().for_each(|p| net_agg.merge(p))
+            }
+            PoolEnd::Stuck { idx, sub } => ctx.machinery(format!(
+                "a transport worker stayed on job {:?} sub-case {sub} for {} s although it finishes when re-executed",
+                jobs[idx as usize],
+                6 * WATCHDOG.as_secs()
+            )),
+            PoolEnd::Hang { idx, sub, finished } => {
+                finished.into_iter().for_each(|p| net_agg.merge(p));
+                let job = jobs[idx as usize];
+                let subs = net::subcases(&job);
+                let Some(s) = subs.get(sub as usize).copied() else {
+                    ctx.machinery(format!("transport setup for {job:?} does not finish within the watchdog"))
+                };
+                let mut cj = net_case_json(&job, &s);
+                let desc = cj.to_string();
+                cj["hang"] = json!(true);
+                hang = Some((format!("C09:net:hang:{}", s.transport.name()), hang_what("transport", &desc), cj));
+            }
+        }
+        if let Some(m) = &net_agg.machinery {
+            if agg.viols.is_empty() && net_agg.viols.is_empty() && hang.is_none() {
+                ctx.machinery(m);
+            }
+        }
+        std::mem::forget(rt);
+    }
+    let net_wall = t1.elapsed().as_secs_f64();
+
+    // ---------------- verdicts
+    let mut all: Vec<(u64, String, String, Value)> = agg.viols.drain(..).collect();
+    all.sort_by(|a, b| a.0.cmp(&b.0));
+    let mut netv: Vec<(u64, String, String, Value)> = net_agg.viols.drain(..).collect();
+    netv.sort_by(|a, b| a.0.cmp(&b.0));
+    for (_, k, w, c) in all.into_iter().chain(netv) {
+        ctx.violation(k, w, c);
+    }
+    if let Some((k, w, c)) = hang.clone() {
+        ctx.violation(k, w, c);
+    }
+    if false_expiries > 0 {
+        ctx.note(format!("{false_expiries} watchdog expiries did not reproduce on re-execution (slow host); the sessions were left to finish"));
+    }
+    for n in agg.notes.iter().chain(net_agg.notes.iter()).take(5) {
+        ctx.note(n.clone());
+    }
+    if agg.get("sessions_with_nonfinal_chunk_size_not_c") > 0 {
+        ctx.note(format!(
+            "{} sessions had a non-final chunk whose size is not chunk_bytes (chunk sizing is documented as local policy, so this is not a verdict)",
+            agg.get("sessions_with_nonfinal_chunk_size_not_c")
+        ));
+    }
+    if agg.get("channel_depth_exceeded") > 0 {
+        ctx.note(format!("{} gated sessions saw the producer run further ahead than session_depth admits (not part of C09)", agg.get("channel_depth_exceeded")));
+    }
+    if agg.get("gate_prediction_missed") > 0 {
+        ctx.note(format!("{} gated sessions missed a predicted producer event and fell back to free running", agg.get("gate_prediction_missed")));
+    }
+
+    // ---------------- non-vacuity
+    if !ctx.has_violation() {
+        let need = |name: &str, v: u64| {
+            if v == 0 {
+                ctx.machinery(format!("vacuous exploration: counter `{name}` is 0"));
+            }
+        };
+        for i in 0..5 {
+            need(&format!("sessions[{}]", KIND_NAMES[i]), agg.per_kind[i]);
+            need(&format!("multi_chunk_sessions[{}]", KIND_NAMES[i]), agg.multi_chunk_per_kind[i]);
+            need(&format!("wire_exact_multiple[{}]", KIND_NAMES[i]), agg.exact_multiple_per_kind[i]);
+            need(&format!("net_pulls[{}]", KIND_NAMES[i]), net_agg.per_kind[i]);
+        }
+        for k in [
+            "failure_injection_sessions",
+            "producer_panic_sessions",
+            "failure_surfaced_as_error",
+            "failure_sessions_with_chunks_before_the_error",
+            "cancel_mid_stream_sessions",
+            "unknown_id_sessions",
+            "empty_payload_sessions",
+            "zstd_sessions",
+            "gate_hold_sessions",
+            "gate_ahead_sessions",
+            "gate_sched_sessions",
+            "sessions_producer_observed_parked_on_full_channel",
+            "sessions_consumer_observed_parked_before_producer",
+            "wire_multiple_plus_one_sessions",
+            "wire_multiple_minus_one_sessions",
+            "past_end_probes",
+        ] {
+            need(k, agg.get(k));
+        }
+        for k in ["net_pulls_tcp_client", "net_pulls_async_client", "net_pulls_websocket_client", "net_failed_producer_pulls_that_errored", "net_ok_pulls"] {
+            need(k, net_agg.get(k));
+        }
+        if agg.get("failure_surfaced_as_error") != agg.get("failure_injection_sessions") {
+            ctx.machinery("failure sessions without violation must all have surfaced an error");
+        }
+    }
+
+    // fixed sample sessions (re-executed here so that the evidence is identical on every run)
+    let sample_cases = [
+        Case { c: 4, m: 9, depth: 1, zstd: false, kind: Kind::Writer, pat: Pat::Alt, fail_at: None, panic: false, script: Script::Drain, gate: Gate::Free },
+        Case { c: 3, m: 10, depth: 0, zstd: false, kind: Kind::Reader, pat: Pat::AllOne, fail_at: Some(7), panic: false, script: Script::Drain, gate: Gate::Free },
+        Case { c: 8, m: 5, depth: 2, zstd: true, kind: Kind::Value, pat: Pat::Natural, fail_at: None, panic: false, script: Script::Drain, gate: Gate::Free },
+        Case { c: 2, m: 5, depth: 0, zstd: false, kind: Kind::Writer, pat: Pat::AllC, fail_at: None, panic: false, script: Script::Drain, gate: Gate::Sched { bits: 0b0101, len: 4 } },
+        Case { c: 4, m: 9, depth: 4, zstd: false, kind: Kind::Typed, pat: Pat::Natural, fail_at: None, panic: false, script: Script::CancelAfter(2), gate: Gate::Free },
+    ];
+    if hang.is_none() {
+        for sc in sample_cases {
+            if let Some(out) = with_watchdog(move || seam::run_session(&sc)) {
+                samples.offer(|| json!({"case": case_json(&sc), "exchanges_after_open": trace_json(&out.trace), "violations": out.viols.len()}));
+            }
+        }
+    }
+    net_agg.samples.sort_by(|a, b| a.0.cmp(&b.0));
+    if let Some((_, s)) = net_agg.samples.first().cloned() {
+        samples.offer(|| s);
+    }
+    samples.offer(|| json!({"note": "sample sessions were skipped because the run ended in a hang"}));
+
+    let states = agg.get("sessions") + net_agg.get("net_pulls");
+    let transitions = agg.get("exchanges") + net_agg.get("net_exchanges");
+    let nv_seam: BTreeMap<String, u64> = agg.c.iter().map(|(k, v)| (k.to_string(), *v)).collect();
+    let nv_net: BTreeMap<String, u64> = net_agg.c.iter().map(|(k, v)| (k.to_string(), *v)).collect();
+    let per_kind = |a: &[u64; 5]| -> Value { json!(KIND_NAMES.iter().zip(a.iter()).map(|(k, v)| (k.to_string(), *v)).collect::<BTreeMap<_, _>>()) };
+    let coverage = json!({
+        "states": states,
+        "transitions": transitions,
+        "traces_validated_against_impl": states,
+        "samples": samples.take(),
+        "exhaustive": hang.is_none(),
+        "rule": "seam: every (chunk size, payload length, depth, compression, producer kind, write-size pattern, failure position, consumer script, gate discipline) combination of the bound is one session on the real open/next/cancel handlers; transports: every (kind, chunk size, depth, compression) server x boundary payloads x public puller x transport",
+        "bound": {
+            "chunk_bytes": chunk_sizes(tier),
+            "payload_length": "0..=3c+1 for c<=16; {0,1,kc-1,kc,kc+1 (k=1..3)} for c in {4096, 1 MiB}; element counts for value/typed/complex additionally 60..=62+2c and the counts whose encoding is exactly kc-1, kc, kc+1",
+            "session_depth": DEPTHS,
+            "compression": ["none", format!("zstd(level {zstd_level})")],
+            "producer_kinds": KIND_NAMES,
+            "write_patterns": "reader/writer: all 2^(n-1) compositions of n for n<=10; {all-1, all-c, alternating c-1/c+1, single} above",
+            "quick_tier_thinning_under_zstd": tier.pick("zstd sessions: all compositions only at depth 4 (the 4 named patterns at the other depths); failure injection with patterns {all-c, single} at depths {0,4}; producer panic at depth 0; cancel sweep at depths {0,4}. Compression none is never thinned.", "none"),
+            "producer_panic": "reader/writer producer thread panics at every position 0..=n, patterns {single, all-c}, depth {0,2}",
+            "failure_positions": tier.pick("every byte position 0..=n x {all-1, all-c, alternating, single}", "every byte position 0..=n x every composition (n<=10) / 4 patterns above; boundary positions for c>=4096"),
+            "scripts": ["drain + 2 extra next", "cancel after k nexts for every k, then 2 next", "next/cancel on an unknown stream id before the first and after the first next, then drain"],
+            "gates": "free; hold (first next observed parked before the producer starts); ahead (producer provably at its channel-depth limit before every next; compression none); sched (every assignment of producer-first/consumer-first to each gate point; c<=4 quick, c<=16 thorough; compression none)",
+            "transports": {"servers": jobs.len(), "chunk_bytes": tier.pick(vec![1u32, 3, 8], vec![1, 2, 3, 4, 7, 8, 16, 4096, 1 << 20]), "payloads": "m in {0,1,c-1,c,c+1,2c,3c+1} (+ counts whose encoding is exactly c, 2c, 3c)", "pullers": ["pull_to_vec", "pull_value", "pull_typed_slice", "pull_complex_slice", "pull_consume", "raw open/next exchanges", "the *_async forms over AsyncClient and over WebSocketClient"]},
+        },
+        "plan_items": n_items,
+        "sessions_per_producer_kind": per_kind(&agg.per_kind),
+        "distinct_outcomes": agg.outcomes,
+        "nonvacuity": {
+            "seam": nv_seam,
+            "multi_chunk_sessions_per_kind": per_kind(&agg.multi_chunk_per_kind),
+            "wire_length_exact_multiple_of_chunk_per_kind": per_kind(&agg.exact_multiple_per_kind),
+            "transports": nv_net,
+            "transport_pulls_per_kind": per_kind(&net_agg.per_kind),
+        },
+        "thread_seconds_by_category": agg.thread_s.iter().map(|(k, v)| (k.to_string(), (v * 10.0).round() / 10.0)).collect::<BTreeMap<_, _>>(),
+        "wall_seam_s": (seam_wall * 100.0).round() / 100.0,
+        "wall_transports_s": (net_wall * 100.0).round() / 100.0,
+    });
+    ctx.finish(
+        "model_checking",
+        coverage,
+        &[
+            "The byte/flag sequence of a single-producer single-consumer bounded FIFO does not depend on timing; relative speed is therefore varied only to exercise both arrival orders at every rendezvous (gates on the producer's writes, the puller observed parked via /proc thread state), not sampled.",
+            "Consumer-first arrival is confirmed by observing the puller thread asleep before the producer is released; where that observation is missed the session still runs and is counted separately.",
+            "The reference bytes are computed without the chunking engine: the raw bytes handed to the reader/writer producers, beve::to_vec_typed_slice / to_vec_complex_slice, and beve::to_writer_streaming into a plain Vec for the serde value.",
+            "zstd streams are judged by decompressing the concatenation (zstd::stream::decode_all); the compressed bytes themselves are not compared with an independent compression run.",
+            "Chunk sizes (exactly chunk_bytes except the last) are documented as local engine policy and are reported as a note, not a verdict.",
+            "Transports use real loopback sockets; a pull that does not return within 10 s is re-executed once and reported as a hang only if it hangs again.",
+        ],
+    )
+}
+
+pub fn replay(case: &Value) -> Result<(), String> {
+    std::panic::set_hook(Box::new(|_| {}));
+    if let Some(l) = case.get("zstd_level").and_then(|l| l.as_i64()) {
+        seam::ZSTD_LEVEL.store(l as i32, Ordering::Relaxed);
+    }
+    match case.get("layer").and_then(|l| l.as_str()) {
+        Some("seam") => {
+            let c = case_from(case).ok_or("malformed seam case")?;
+            match with_watchdog(move || seam::run_session(&c)) {
+                None => Err(format!("hang: the session did not finish within {} s", WATCHDOG.as_secs())),
+                Some(out) => {
+                    if let Some(m) = out.machinery {
+                        return Err(format!("machinery: {m}"));
+                    }
+                    println!("exchanges: {}", trace_json(&out.trace));
+                    if out.viols.is_empty() {
+                        Ok(())
+                    } else {
+                        Err(out.viols.iter().map(|(k, w)| format!("{k} :: {w}")).collect::<Vec<_>>().join("\n"))
+                    }
+                }
+            }
+        }
+        Some("net") => {
+            let (job, sub) = net_case_from(case).ok_or("malformed net case")?;
+            let rt = Arc::new(tokio::runtime::Builder::new_multi_thread().worker_threads(2).enable_all().build().map_err(|e| e.to_string())?);
+            let rt2 = rt.clone();
+            let r = with_watchdog(move || net::setup(&job, &rt2).map(|ep| net::run_sub(&job, &sub, &ep, &rt2).viols));
+            std::mem::forget(rt);
+            match r {
+                None => Err(format!("hang: the pull did not finish within {} s", WATCHDOG.as_secs())),
+                Some(Err(e)) => Err(format!("machinery: {e}")),
+                Some(Ok(v)) if v.is_empty() => Ok(()),
+                Some(Ok(v)) => Err(v.iter().map(|(k, w)| format!("{k} :: {w}")).collect::<Vec<_>>().join("\n")),
+            }
+        }
+        _ => Err("case has no layer".into()),
+    }
 }
